@@ -425,7 +425,10 @@ def qual(n):
 
 
 def is_float_type(n):
-    return qual(n) in ('double', 'float', 'long double')
+    q = qual(n)
+    for cv in ('const ', 'volatile ', 'register '):
+        q = q.replace(cv, '')
+    return q.strip() in ('double', 'float', 'long double')
 
 
 def int_value(n):
